@@ -3,6 +3,7 @@ package main
 import (
 	"fmt"
 	"go/ast"
+	"go/token"
 	"go/types"
 	"sort"
 	"strings"
@@ -281,5 +282,104 @@ func c26Extra(r *Run) error {
 	}
 	r.boundedGoTest("C26-battery", "real Ego programs run in-process with sandboxed I/O: after each one the tree outside the sandbox root is byte-for-byte unchanged and nothing printed carries the content, the size or the name of an outside file",
 		"24 file-touching calls of the os, io and json packages (ReadFile, Stat, Open+Read, WriteFile, Create, Chmod, Remove, RemoveAll, Mkdir, MkdirAll, CreateTemp, io.Open in four modes, io.ReadDir, io.Expand, json.ReadFile/WriteFile) x 7 to 13 spellings of an outside location each (absolute, .., repeated separators, root/.., through a link to a file, through a link to a directory, a dangling link, a dangling directory link, a directory named x..) plus three io.Expand extension arguments: 262 programs, one fixed layout of links")
+	return nil
+}
+
+// cacheWriteThrough: every function of package pkgPath that writes the table behind the handle named handleText keeps
+// the cache cacheConst honest, in one of two ways: (after) a caches.Add or caches.Delete on that cache follows the last
+// write; or (before) a caches.Delete on it precedes the first write and no method of the same service whose name starts
+// with fillerPrefix (the reader that fills the cache) is called in between. Anything else leaves a window in which the
+// reader keeps answering with the record as it was.
+func (r *Run) cacheWriteThrough(obl, pkgPath, handleText, cacheConst, fillerPrefix, text string) {
+	pk := r.Prog.Pkgs[pkgPath]
+	if pk == nil || pk.TypesInfo == nil {
+		r.table(obl, false, text, "package not loaded")
+		return
+	}
+	fset := r.Prog.Fset
+	writes := map[string]bool{"Insert": true, "Update": true, "UpdateOne": true, "Delete": true, "DeleteOne": true}
+	var bad, good []string
+	for _, f := range pk.Syntax {
+		if strings.HasSuffix(fset.Position(f.Pos()).Filename, "_test.go") {
+			continue
+		}
+		for _, d := range f.Decls {
+			fd, ok := d.(*ast.FuncDecl)
+			if !ok || fd.Body == nil {
+				continue
+			}
+			var firstWrite, lastWrite, firstDrop, lastCacheOp token.Pos
+			var fills []token.Pos
+			ast.Inspect(fd.Body, func(n ast.Node) bool {
+				call, ok := n.(*ast.CallExpr)
+				if !ok {
+					return true
+				}
+				sel, ok := call.Fun.(*ast.SelectorExpr)
+				if !ok {
+					return true
+				}
+				recvText := squash(fset, sel.X)
+				switch {
+				case writes[sel.Sel.Name] && strings.Contains(recvText, handleText):
+					if firstWrite == 0 || call.Pos() < firstWrite {
+						firstWrite = call.Pos()
+					}
+					if call.Pos() > lastWrite {
+						lastWrite = call.Pos()
+					}
+				case recvText == "caches" && (sel.Sel.Name == "Delete" || sel.Sel.Name == "Add") && len(call.Args) >= 1 && squash(fset, call.Args[0]) == cacheConst:
+					if sel.Sel.Name == "Delete" && (firstDrop == 0 || call.Pos() < firstDrop) {
+						firstDrop = call.Pos()
+					}
+					if call.Pos() > lastCacheOp {
+						lastCacheOp = call.Pos()
+					}
+				case strings.HasPrefix(sel.Sel.Name, fillerPrefix) && fd.Recv != nil && len(fd.Recv.List) > 0 && len(fd.Recv.List[0].Names) > 0 && recvText == fd.Recv.List[0].Names[0].Name:
+					fills = append(fills, call.Pos())
+				}
+				return true
+			})
+			// only the service's methods: the constructor seeds the table before any reader (and any cache entry) exists
+			if firstWrite == 0 || fd.Recv == nil {
+				continue
+			}
+			name := fd.Name.Name
+			if fd.Recv != nil && len(fd.Recv.List) > 0 {
+				name = "(" + squash(fset, fd.Recv.List[0].Type) + ")." + name
+			}
+			after := lastCacheOp > lastWrite
+			before := firstDrop != 0 && firstDrop < firstWrite
+			if before {
+				for _, p := range fills {
+					if p > firstDrop && p < firstWrite {
+						before = false
+					}
+				}
+			}
+			switch {
+			case after:
+				good = append(good, name+" (refreshes the cache after the write)")
+			case before:
+				good = append(good, name+" (drops the cached record before the write)")
+			default:
+				bad = append(bad, name+" writes the table at "+fset.Position(firstWrite).String()+" and neither refreshes the cache afterwards nor drops the record beforehand without reading it back in")
+			}
+		}
+	}
+	sort.Strings(good)
+	sort.Strings(bad)
+	r.table(obl, len(bad) == 0 && len(good) > 0, text, fmt.Sprintf("writers: %v; %s", good, strings.Join(bad, "; ")))
+}
+
+func c43Extra(r *Run) error {
+	r.cacheWriteThrough("C43/dsn-cache-write-through[dsns]", modInternal+"dsns", "dsnHandle", "caches.DSNCache", "Read",
+		"every function of the DSN service that writes the dsns table keeps the cached DSN record honest (so ReadDSN, which the row handlers and Authorized consult, cannot keep answering with the record as it was)")
+	return nil
+}
+
+func c25Extra(r *Run) error {
+	r.cacheWriteThrough("C25/user-cache-write-through[auth]", modInternal+"server/auth", "userHandle", "caches.AuthCache", "Read",
+		"every function of the database user store that writes the credentials table keeps the cached user record honest (so ReadUser, which ValidatePassword consults, cannot keep answering with the credential as it was)")
 	return nil
 }
